@@ -324,6 +324,55 @@ func (g *gen) growThenRead(t *rapid.T) bool {
 	return true
 }
 
+var faultKinds = []string{"unlink", "rename", "cut"}
+
+// faultTail ends a case with a Readn or Written over k = 2..5 iounits (+-1
+// byte) whose j-th Tread / Twrite is made to fail.
+func (g *gen) faultTail(t *rapid.T) []Op {
+	u := g.u
+	var q []Op
+	if len(g.hs) >= maxHandles {
+		g.hs = g.hs[1:]
+		q = append(q, Op{Kind: "close", Handle: 0})
+	}
+	if len(g.lens) == 0 {
+		g.lens = append(g.lens, 0)
+		g.hs = append(g.hs, ghandle{file: 0, mode: oRDWR})
+		q = append(q, Op{Kind: "create", Mode: oRDWR})
+	} else {
+		fi := rapid.IntRange(0, len(g.lens)-1).Draw(t, "fault_file")
+		g.hs = append(g.hs, ghandle{file: fi, mode: oRDWR})
+		q = append(q, Op{Kind: "open", File: fi, Mode: oRDWR})
+	}
+	hi := len(g.hs) - 1
+	fi := g.hs[hi].file
+	k := int64(rapid.IntRange(2, 5).Draw(t, "fault_k"))
+	d := int64(rapid.IntRange(-1, 1).Draw(t, "fault_d"))
+	size := k*u + d
+	fault := rapid.SampledFrom(faultKinds).Draw(t, "fault")
+	if rapid.Bool().Draw(t, "fault_written") {
+		off := clamp(rapid.SampledFrom([]int64{0, g.lens[fi], g.lens[fi] - 1, 1}).Draw(t, "fault_woff"), 0, 6*u)
+		j := rapid.IntRange(1, int(k)+1).Draw(t, "fault_at")
+		q = append(q, Op{Kind: "written", Handle: hi, Off: uint64(off), Count: uint32(size), Seed: rapid.Uint64().Draw(t, "fault_seed"), Fault: fault, FaultAt: j})
+		return q
+	}
+	if g.lens[fi] < size {
+		// make the file k iounits long first
+		q = append(q, Op{Kind: "written", Handle: hi, Off: uint64(g.lens[fi]), Count: uint32(size - g.lens[fi]), Seed: rapid.Uint64().Draw(t, "fault_fill")})
+		g.lens[fi] = size
+	}
+	l := g.lens[fi]
+	off := clamp(rapid.SampledFrom([]int64{0, 1, u - 1, l - size}).Draw(t, "fault_roff"), 0, l)
+	cnt := rapid.SampledFrom([]int64{l - off, l - off + 7, size, 2*u + 1}).Draw(t, "fault_cnt")
+	if g.avoid && cnt > l-off {
+		cnt = l - off
+		hx.Excluded(FindingReadn)
+	}
+	j := rapid.IntRange(1, int((l-off)/u)+2).Draw(t, "fault_at")
+	q = append(q, Op{Kind: "readn", Handle: hi, Off: uint64(off), Count: uint32(clamp(cnt, 0, 8*u)), Fault: fault, FaultAt: j})
+	return q
+}
+
 func (g *gen) op(t *rapid.T) Op {
 	if len(g.queue) > 0 {
 		_ = rapid.Bool().Draw(t, "queued") // a Custom generator has to consume something
@@ -476,6 +525,9 @@ func genCase(t *rapid.T) *Case {
 	c.Ops = append(c.Ops, ops...)
 	c.Ops = append(c.Ops, g.queue...) // finish a scenario cut off by the slice length
 	g.queue = nil
+	if rapid.IntRange(0, 3).Draw(t, "fault_tail") == 3 {
+		c.Ops = append(c.Ops, g.faultTail(t)...)
+	}
 	c.FinalChunk = uint32(clamp(int64(g.countOf(t, 0, 3*g.u)), 1, 3*g.u))
 	return c
 }
@@ -731,6 +783,39 @@ func TestEnumBoundary(t *testing.T) {
 					run(c)
 				}
 			}
+			// faults: Readn / Written over k iounits (+-1) whose j-th piece fails
+			for k := int64(2); k <= 5; k++ {
+				for _, d := range []int64{-1, 0, 1} {
+					for _, fault := range faultKinds {
+						for j := 2; j <= int(k)+1; j++ {
+							if !mine() {
+								continue
+							}
+							size := k*u + d
+							rc := &Case{ClientMsize: nm, ServerMsize: 65536, Dotu: dotu, FinalChunk: uint32(u),
+								Files: []FileSpec{{Len: int(size), Seed: uint64(size) + 3}},
+								Desc:  fmt.Sprintf("enum fault readn msize=%d dotu=%v len=%dU%+d %s before Tread #%d", nm, dotu, k, d, fault, j)}
+							cnt := size + 3
+							if avoid {
+								cnt = size
+								hx.Excluded(FindingReadn)
+							}
+							rc.Ops = append(rc.Ops, Op{Kind: "open", File: 0, Mode: oREAD},
+								Op{Kind: "readn", Handle: 0, Off: 0, Count: uint32(cnt), Fault: fault, FaultAt: j})
+							run(rc)
+							if j > int(k) && d <= 0 {
+								continue // Written over k*U+d bytes sends no (k+1)-th Twrite
+							}
+							wc := &Case{ClientMsize: 65536, ServerMsize: nm, Dotu: dotu, FinalChunk: uint32(u),
+								Files: []FileSpec{{Len: 1, Seed: 9}},
+								Desc:  fmt.Sprintf("enum fault written msize=%d dotu=%v %dU%+d bytes %s before Twrite #%d", nm, dotu, k, d, fault, j)}
+							wc.Ops = append(wc.Ops, Op{Kind: "open", File: 0, Mode: oRDWR},
+								Op{Kind: "written", Handle: 0, Off: 1, Count: uint32(size), Seed: uint64(size) * 5, Fault: fault, FaultAt: j})
+							run(wc)
+						}
+					}
+				}
+			}
 			// writes: one fresh file per (offset, count)
 			for _, l := range []int64{0, 1, u - 1, u, u + 1, 2*u + 1} {
 				for _, kind := range []string{"cwrite", "writeat", "written"} {
@@ -780,5 +865,5 @@ func TestEnumBoundary(t *testing.T) {
 	if fails > 2 {
 		t.Errorf("... and %d more failing enumerated cases", fails-2)
 	}
-	hx.Exhaustive("msize 128 and 129 (thorough: and 256) x both dialects: file lengths {0,1,U-1,U,U+1,2U-1,2U,2U+1,3U+1} x offsets {0,1,U-1,U,U+1,2U,L-1,L,L+1,L-U,L+U} x counts {0,1,U-1,U,U+1,2U+1,3U+2,rem-1,rem,rem+1} for Clnt.Read, File.ReadAt, File.Readn; sequential File.Read to EOF with 10 buffer sizes; Clnt.Write, File.WriteAt, File.Written on fresh files of lengths {0,1,U-1,U,U+1,2U+1} x 9 offsets x 6 counts; all 36 pairs of consecutive File.Write sizes; grow scenarios: lengths {0,1,U,U+1} x growth {1,U,2U+17}: reads by all helpers at offsets around the old and the new end through a fid opened before another fid extended the file, through the extending fid, and create->write->read-back through one ORDWR fid")
+	hx.Exhaustive("msize 128 and 129 (thorough: and 256) x both dialects: file lengths {0,1,U-1,U,U+1,2U-1,2U,2U+1,3U+1} x offsets {0,1,U-1,U,U+1,2U,L-1,L,L+1,L-U,L+U} x counts {0,1,U-1,U,U+1,2U+1,3U+2,rem-1,rem,rem+1} for Clnt.Read, File.ReadAt, File.Readn; sequential File.Read to EOF with 10 buffer sizes; Clnt.Write, File.WriteAt, File.Written on fresh files of lengths {0,1,U-1,U,U+1,2U+1} x 9 offsets x 6 counts; all 36 pairs of consecutive File.Write sizes; grow scenarios: lengths {0,1,U,U+1} x growth {1,U,2U+17}: reads by all helpers at offsets around the old and the new end through a fid opened before another fid extended the file, through the extending fid, and create->write->read-back through one ORDWR fid; faults: Readn of a k*U+d byte file and Written of k*U+d bytes (k=2..5, d=-1,0,1) x {unlink, rename, cut} exactly before the j-th Tread/Twrite, j=2..k+1")
 }
